@@ -139,32 +139,83 @@ theorem cell_has_presentation (c : Cell) (hok : Order.CellOK c) (hd : Order.cell
     Table.unfold (Order.cellTable c) ((Order.cellTable c).size + 1) 0 = some c :=
   ⟨Order.cellTable_valid c hok hd, Order.cellTable_unfold c⟩
 
-/-- **Round trip on cells.** For every cell tree within the limits of the format, every key identifying the cells and
-all 2³ option sets: the writer model succeeds on (the presentation of) the tree, and the reader applied to its bytes
-returns a table whose root unfolds to the tree — same bits, type, references in the same order, hence the same
-representation hash. By `serialize_canonical` any other presentation of the same tree (any sharing) gives the same
-bytes. -/
+/-- Round trip of the whole Go writer for ONE root (the public API), with every witness pinned and no guard on the
+conclusion: the ordering succeeds with result `o`, the writer model returns `bs`, `o` is `OrderValid`, and the reader
+applied to `bs` returns exactly `(o.table, o.roots)`. The size conditions are derived from the input: `o` has at most
+as many cells as the presentation has rows (`OrderValid.size_le`, a counting argument), which is below 2²⁴, and the
+output of fewer than 2²⁴ cells is far shorter than a Go slice may be (`Writer.serializeOrdered_length_lt`). -/
+theorem roundtrip_go_writer_single {K : Type} [BEq K] [Hashable K] [LawfulBEq K] (t : Table) (root : Nat)
+    (key : Nat → Option K) (idx crc cache : Bool) (hv : ValidLayout t [root]) (hk : Order.KeyInjOn t key)
+    (hn : t.size < 16777216) :
+    ∃ o bs, Order.order t key [root] = .ok o ∧ Order.serializeBocModel t key [root] idx crc cache = .ok bs ∧
+      Order.OrderValid t [root] o ∧ parseBoc bs = .ok (o.table, o.roots) := by
+  obtain ⟨o, ho, hval⟩ := Order.orderWith_valid t [root] key Order.goSpecial hv hk
+  have hord : Order.order t key [root] = .ok o := ho
+  have hrl : o.roots.length = 1 := by
+    have := congrArg List.length hval.roots_eq
+    simpa using this
+  have hpos : 1 ≤ o.table.size := by
+    cases hr : o.roots with
+    | nil => rw [hr] at hrl; simp at hrl
+    | cons r rs =>
+      have := hval.valid.1.2.1 r (by rw [hr]; simp)
+      omega
+  have hsz : o.table.size < 16777216 := Nat.lt_of_le_of_lt hval.size_le hn
+  have hlen := Writer.serializeOrdered_length_lt o.table o.roots idx crc cache o.cacheBits
+    (fun i h => ⟨(hval.valid.1.1 i h).bits_le, (hval.valid.1.1 i h).refs_le⟩) hsz (by omega)
+  exact ⟨o, Writer.serializeOrdered o.table o.roots idx crc cache o.cacheBits, hord,
+    by simp only [Order.serializeBocModel, hord], hval,
+    roundtrip o.table o.roots idx crc cache o.cacheBits hval.valid hsz (by omega) (by omega) hlen⟩
+
+/-- **Round trip on cells.** For every cell tree `c` within the limits of the format with fewer than 2²⁴ nodes, every
+key identifying its cells, every hash function `H` and all 2³ option sets: ordering the (presentation of the) tree
+succeeds with result `o`, the writer model returns bytes `bs`, the reader applied to `bs` returns exactly `o`'s table
+and root, that root unfolds to `c` — same bits, type, references in the same order — and therefore has the same
+representation hash. Every witness is pinned; nothing is guarded. By `serialize_canonical` any other presentation of
+the same tree (any sharing) gives the same bytes. -/
 theorem roundtrip_cell {K : Type} [BEq K] [Hashable K] [LawfulBEq K] (c : Cell) (key : Nat → Option K)
-    (idx crc cache : Bool) (hok : Order.CellOK c) (hd : Order.cellDepth c ≤ maxDepth)
-    (hk : Order.KeyInjOn (Order.cellTable c) key) :
-    ∃ (o : Order.Ordered) (bs : Bytes), Order.serializeBocModel (Order.cellTable c) key [0] idx crc cache = .ok bs ∧
+    (idx crc cache : Bool) (H : List UInt8 → List UInt8) (hok : Order.CellOK c) (hd : Order.cellDepth c ≤ maxDepth)
+    (hn : Order.nodes c < 16777216) (hk : Order.KeyInjOn (Order.cellTable c) key) :
+    ∃ (o : Order.Ordered) (bs : Bytes), Order.order (Order.cellTable c) key [0] = .ok o ∧
+      Order.serializeBocModel (Order.cellTable c) key [0] idx crc cache = .ok bs ∧
+      parseBoc bs = .ok (o.table, o.roots) ∧
       o.roots.map (Table.unfold o.table (o.table.size + 1)) = [some c] ∧
-      (o.table.size < 16777216 → bs.length < two63 → parseBoc bs = .ok (o.table, o.roots)) := by
-  obtain ⟨o, bs, _, hser, hval, hparse⟩ :=
-    roundtrip_go_writer (Order.cellTable c) [0] key idx crc cache (Order.cellTable_valid c hok hd) hk
-  refine ⟨o, bs, hser, ?_, ?_⟩
-  · have := hval.roots_eq
+      o.roots.map (fun r => (Table.unfold o.table (o.table.size + 1) r).map (Cell.reprHash H)) =
+        [some (Cell.reprHash H c)] := by
+  have hsz : (Order.cellTable c).size = Order.nodes c := by simp [Order.cellTable, Order.rowsOf_length]
+  obtain ⟨o, bs, hord, hser, hval, hparse⟩ :=
+    roundtrip_go_writer_single (Order.cellTable c) 0 key idx crc cache (Order.cellTable_valid c hok hd) hk
+      (by rw [hsz]; exact hn)
+  have hroots : o.roots.map (Table.unfold o.table (o.table.size + 1)) = [some c] := by
+    have := hval.roots_eq
     simpa [Order.cellTable_unfold c] using this
-  · intro hn hlen
-    have hpos : 1 ≤ o.table.size := by
-      have hl := congrArg List.length hval.roots_eq
-      simp only [List.length_map, List.length_cons, List.length_nil] at hl
-      cases hr : o.roots with
-      | nil => rw [hr] at hl; simp at hl
-      | cons r rs =>
-        have := hval.valid.1.2.1 r (by rw [hr]; simp)
-        omega
-    exact hparse hn (by simp) (by simpa using hpos) hlen
+  refine ⟨o, bs, hord, hser, hparse, hroots, ?_⟩
+  have : o.roots.map (fun r => (Table.unfold o.table (o.table.size + 1) r).map (Cell.reprHash H)) =
+      (o.roots.map (Table.unfold o.table (o.table.size + 1))).map (Option.map (Cell.reprHash H)) := by
+    rw [List.map_map]; rfl
+  rw [this, hroots]
+  rfl
+
+/-- Regression (AUDIT2 B2): the earlier statement of `roundtrip_cell` had an unpinned witness and a size guard, so it
+followed from "the writer returned some bytes" by choosing a padded table of 2²⁴ rows. With the pinned statement that
+shortcut no longer elaborates. -/
+example (c : Cell) (key : Nat → Option Nat) (bs : Bytes)
+    (hser : Order.serializeBocModel (Order.cellTable c) key [0] false false false = .ok bs) : True := by
+  fail_if_success
+    (have : ∃ (o : Order.Ordered) (bs' : Bytes), Order.order (Order.cellTable c) key [0] = .ok o ∧
+        Order.serializeBocModel (Order.cellTable c) key [0] false false false = .ok bs' ∧
+        parseBoc bs' = .ok (o.table, o.roots) := by
+      refine ⟨⟨Array.replicate 16777216 default, [0], [], []⟩, bs, ?_, hser, ?_⟩ <;>
+        first | rfl | decide | (intro h; omega) | (simp; done))
+  trivial
+
+/-- `serialize_canonical` instantiated: the same cell presented with the leaf duplicated (`exDup`, rows 1 and 2) and
+with the leaf shared (`exShared`) is serialised to the same bytes. -/
+example (idx crc cache : Bool) : ∃ bs,
+    Order.serializeBocModel Order.exDup (fun i => some (if i = 2 then 1 else i)) [0] idx crc cache = .ok bs ∧
+    Order.serializeBocModel Order.exShared (fun i => some i) [0] idx crc cache = .ok bs :=
+  serialize_canonical Order.exDup Order.exShared [0] [0] _ _ idx crc cache Order.exDup_valid Order.exShared_valid
+    Order.exDup_key Order.exShared_key Order.exDup_exShared_keys Order.exDup_exShared_roots
 
 /-- The hypotheses of `order_valid` / `roundtrip_go_writer` are satisfiable by a table with sharing (the root refers
 twice to the same child), keyed by the row number. -/
